@@ -183,7 +183,15 @@ impl World {
         } else {
             None
         };
-        let mut server = HttpServer::new(&path).expect("bind");
+        // both constructors occur: every third world hands the server a listener it bound itself (`new_from_fd`)
+        let mut server = if n % 3 == 2 {
+            use std::os::unix::io::IntoRawFd;
+            let l = std::os::unix::net::UnixListener::bind(&path).expect("bind");
+            // SAFETY: the descriptor is owned by nobody else after into_raw_fd
+            unsafe { HttpServer::new_from_fd(l.into_raw_fd()).expect("new_from_fd") }
+        } else {
+            HttpServer::new(&path).expect("bind")
+        };
         // both documented orders occur: the kill switch installed before `start_server` (every other world) or after it
         let mut kill_pair: Option<(EventFd, RawFd)> = None;
         let kill_first = with_kill && n % 2 == 0;
